@@ -257,6 +257,57 @@ def live_holder_commands(R, fails, stats):
                               "tree_changed": after != before, "lock_still_there": lock_there})
 
 
+def commands_hold_lock(R, fails, stats):
+    """every mutating command as the HOLDER: in its recorded system-call trace the lock file is created before the first
+    change to the tree or to renamify's state and removed only after the last one (a lock taken and dropped at once, or
+    released before the history entry is written, lets a second process in while the first is still working); and it is
+    gone afterwards, also when the command ends with an error"""
+    import inject
+    tree = [{"p": "old_name.txt", "k": "f", "c": b"old_name one\nsecond old_name\n", "m": 0o644},
+            {"p": "d", "k": "d", "m": 0o755}, {"p": "d/old_name_x.rs", "k": "f", "c": b"fn old_name() {}\n", "m": 0o644},
+            {"p": "old_name_dir", "k": "d", "m": 0o755}, {"p": "old_name_dir/in_old_name.txt", "k": "f", "c": b"oldName\n", "m": 0o600}]
+    for cmd in ("rename", "apply", "undo", "redo", "replace", "apply_stale"):
+        with cli.Sandbox(tree) as sb:
+            if cmd in ("apply", "apply_stale"):
+                sb.run(["--no-auto-init", "plan", "old_name", "new_name", "--quiet"])
+            if cmd == "apply_stale":
+                (sb.root / "old_name.txt").write_bytes(b"changed behind the plan's back\n")
+            if cmd in ("undo", "redo"):
+                sb.run(["--no-auto-init", "-y", "rename", "old_name", "new_name"])
+            if cmd == "redo":
+                sb.run(["--no-auto-init", "-y", "undo", "latest"])
+            args = {"rename": ["-y", "rename", "old_name", "new_name"], "apply": ["-y", "apply"], "apply_stale": ["-y", "apply"],
+                    "undo": ["-y", "undo", "latest"], "redo": ["-y", "redo", "latest"],
+                    "replace": ["-y", "replace", "--no-regex", "old_name", "zz"]}[cmd]
+            rc, o, e, trace = inject.strace_run(sb, ["--no-auto-init"] + args)
+            evs = inject.mutating_events(trace, sb.root, classes=("user", "state", "lock"))
+            stats["holder_traces"] = stats.get("holder_traces", 0) + 1
+            R.case(("holder_trace", cmd), nontrivial=True)
+            lock_idx = [k for k, ev in enumerate(evs) if ev.cls == "lock"]
+            # the lock protocol's own temp file and the creation of .renamify/ itself are not work done under the lock
+            work_idx = [k for k, ev in enumerate(evs) if ev.cls == "user" or
+                        (ev.cls == "state" and "renamify.lock" not in ev.raw and not (ev.sys == "mkdir" and ev.raw.split('"')[1].rstrip("/").rsplit("/", 1)[-1] == ".renamify"))]
+            ctx = {"cmd": cmd, "rc": rc, "events": [f"{ev.cls}:{ev.sys}" for ev in evs][:60]}
+            if (sb.root / ".renamify" / "renamify.lock").exists():
+                fails.append({"why": f"the lock file is still there after '{cmd}' exited (status {rc})", **ctx})
+                continue
+            if cmd == "apply_stale":
+                if rc == 0:
+                    continue
+            elif rc != 0:
+                fails.append({"why": f"'{cmd}' failed in the holder-trace scenario: {e.decode('utf-8', 'replace')[-200:]}", **ctx})
+                continue
+            if not work_idx:
+                continue
+            if not lock_idx:
+                fails.append({"why": f"'{cmd}' changed the workspace without ever creating the lock file", **ctx})
+            elif lock_idx[0] > work_idx[0]:
+                fails.append({"why": f"'{cmd}' started changing the workspace before it had created the lock file", **ctx})
+            elif lock_idx[-1] < work_idx[-1] or len(lock_idx) < 2:
+                fails.append({"why": f"'{cmd}' removed its lock file before it had finished (changes to the tree or to the history "
+                                     "follow the removal): a second process can enter while the first is still working", **ctx})
+
+
 def run(R):
     R.trusted += ["Coq 8.16.1 kernel + vm_compute", "translators/gen_lock.py", "feature-gated sched_point hooks in lock.rs",
                   "extraction + modelrun.ml"]
@@ -312,6 +363,7 @@ def run(R):
                 fails.append({"why": "two real processes were inside the lock at the same time", "init": kind, "pids": pids,
                               "schedule": evs, "results": res["results"]})
     live_holder_commands(R, fails, stats)
+    commands_hold_lock(R, fails, stats)
     M.close()
     R.coverage["input_distribution"] = stats
     R.disagreements = len(dis)
